@@ -1,13 +1,13 @@
 // R7 shims (ASSUMED std contracts) shared by the minimizer's units
 // vec![0; n].into_boxed_slice()
 #[verifier::external_body]
-pub fn vx_boxed_zeros_u32(n: usize) -> (v: Box<[u32]>)
+pub fn vx_boxed_zeros_min(n: usize) -> (v: Box<[u32]>)
     ensures v@.len() == n, forall|i: int| 0 <= i < n ==> v@[i] == 0,
 { vec![0; n].into_boxed_slice() }
 
 // vec![1; n].into_boxed_slice()
 #[verifier::external_body]
-pub fn vx_boxed_ones_u32(n: usize) -> (v: Box<[u32]>)
+pub fn vx_boxed_ones_min(n: usize) -> (v: Box<[u32]>)
     ensures v@.len() == n, forall|i: int| 0 <= i < n ==> v@[i] == 1,
 { vec![1; n].into_boxed_slice() }
 
